@@ -1,5 +1,5 @@
 from typing import Awaitable, TypeVar, Generic, Optional, Tuple
-from .. import Flag, until
+from .. import Flag, until, Concurrent
 
 
 R = TypeVar('R')
@@ -50,7 +50,8 @@ class AwaitableEvent(Generic[R]):
         async with until(interrupted):
             try:
                 result = await self._awaitable
-            except Exception as err:
+            except (Exception, Concurrent) as err:
+                # Concurrent is a BaseException, but a regular error of the activity
                 self._value = None, err
                 return True
             else:
